@@ -287,6 +287,9 @@ func (ev *Eval) eval(e Expr) Val {
 					if v, ok := ev.lookupConst(b.Name + "." + x.F); ok {
 						return v
 					}
+					if gv := ev.lookupGlobal(b.Name + "." + x.F); gv != nil {
+						return ev.readAddr(gv, gv.RootT)
+					}
 				}
 			}
 		}
@@ -443,6 +446,18 @@ func (ev *Eval) lookupGlobal(name string) *Addr {
 	}
 	if pk == nil {
 		return nil
+	}
+	if i := strings.Index(name, "."); i >= 0 {
+		var found *types.Package
+		for _, imp := range pk.Imports() {
+			if imp.Name() == name[:i] {
+				found = imp
+			}
+		}
+		if found == nil {
+			return nil
+		}
+		pk, name = found, name[i+1:]
 	}
 	if o, ok := pk.Scope().Lookup(name).(*types.Var); ok {
 		return &Addr{Root: rootGlobal, Cell: "g:" + pk.Path() + "." + name, RootT: o.Type(), Nil: "false"}
@@ -980,6 +995,16 @@ func (ev *Eval) callExpr(x *ECall) Val {
 				fs = append(fs, ev.term(ev.coerce(ev.eval(a), st.Field(i).Type())))
 			}
 			return Val{T: t, Term: "(mk_" + s.sortOf(t) + " " + strings.Join(fs, " ") + ")"}
+		}
+	}
+	// array constructor T(e0, ..., eN-1) for small Go array types
+	if t := ev.lookupType(x.Fn); t != nil {
+		if at, ok := types.Unalias(t).Underlying().(*types.Array); ok && smallArr(at) && int64(len(x.Args)) == at.Len() && at.Len() > 1 {
+			var fs []string
+			for _, a := range x.Args {
+				fs = append(fs, ev.term(ev.coerce(ev.eval(a), at.Elem())))
+			}
+			return Val{T: t, Term: "(mk_" + s.arrSort(at) + " " + strings.Join(fs, " ") + ")"}
 		}
 	}
 	// type conversion T(e) of integer types is the identity on values
